@@ -10,4 +10,9 @@ require (
 	seehuhn.de/go/sfnt v0.0.0
 )
 
+require (
+	golang.org/x/exp v0.0.0-20240409090435-93d18d7e34b8 // indirect
+	seehuhn.de/go/dijkstra v0.9.3 // indirect
+)
+
 replace seehuhn.de/go/sfnt => /repo
